@@ -400,7 +400,10 @@ def execute(ops, tag='c04'):
 
 def variants(op):
     """smaller lines: a single call; one condition (clause + its ret) removed"""
-    head, cl, ca = [x.strip() for x in op.split('|')]
+    parts = [x.strip() for x in op.split('|')]
+    if len(parts) != 3:
+        return []      # a value containing '|' (or a malformed line): do not shrink
+    head, cl, ca = parts
     clauses = [c.strip() for c in cl.split(';') if c.strip()]
     calls = [c.strip() for c in ca.split(';') if c.strip()]
     out = []
@@ -468,7 +471,10 @@ def run(tier):
         if key in seen:
             continue
         seen.add(key)
-        small = shrink(ops[i], key, build_probe()) if impl[i] != 'crash' else ops[i]
+        try:
+            small = shrink(ops[i], key, build_probe()) if impl[i] != 'crash' else ops[i]
+        except Exception:       # the shrinker is a convenience; a failure to shrink must never hide the violation
+            small = ops[i]
         out.violation(f'{small}: {what}', {'kind': 'impl-oracle', 'ops': [small], 'original_op': ops[i], 'observed': impl[i], 'why': what, 'finding': key,
                                            'n_lines_failing': len(bad), 'how': 'python3 check.py C04 --replay <this file>'}, key=key)
         if len(seen) >= 4:
